@@ -38,6 +38,10 @@ class Callable(object):
             src = 'class C(object):\n%s    def m(%s):\n        _CALLS.append(1)\n' % (extra, sig)
             exec(src, self.ns)
             self.obj = self.ns['C']().m
+        elif kind == 'instance_static_call':
+            src = 'class C(object):\n    @staticmethod\n    def __call__(%s):\n        _CALLS.append(1)\n' % sig
+            exec(src, self.ns)
+            self.obj = self.ns['C']()
         elif kind in ('instance', 'instance_with_name'):
             src = 'class C(object):\n    def __call__(%s):\n        _CALLS.append(1)\n' % sig
             exec(src, self.ns)
@@ -118,7 +122,7 @@ def gen_case(rng, prop='C19'):
     spec = gen_spec(rng)
     kind = rng.choice(['func', 'func', 'method', 'instance', 'func', 'func', 'method', 'instance',
                        'classmethod', 'classmethod_via_instance', 'staticmethod', 'wrapped', 'async', 'generator', 'lambda',
-                       'method_of_falsy_instance', 'instance_with_name'])
+                       'method_of_falsy_instance', 'instance_with_name', 'instance_static_call'])
     case = {'spec': spec, 'kind': kind, 'seed': rng.randrange(1 << 30)}
     if kind == 'wrapped':
         case['wspec'] = gen_spec(rng)
@@ -217,6 +221,17 @@ def run_case(case, prop='C19'):
         return viol, cnt, False
     nontrivial = False
     seen_true = seen_false = False
+    if case['kind'] in ('method', 'method_of_falsy_instance') and rng.random() < 0.5:
+        # the same function inspected unbound first (Cls.m, with the instance as an argument): what klepto learned
+        # about it must not leak into what it says about the bound method
+        try:
+            inst = tgt.base.__self__
+            KI.isvalid(type(inst).m, inst, 1)
+            KI.validate(type(inst).m, inst)
+        except Exception:
+            pass
+        del tgt.calls[:]
+        note('c19_unbound_inspected_first')
     D = dict((n, dec(v)) for n, v in case['spec']['def'])
     D.update((n, dec(v)) for n, has, v in case['spec']['kwonly'] if has)
     work = [(tgt, a, k) for a, k in gen_calls(rng, case['spec'], defaults=D, fixed=len(tgt.pa), pk=tuple(tgt.pk))]
